@@ -563,14 +563,61 @@ def run_history(ctx, actor, hist):
     return ok, key
 
 
+def failing_first_read_cells(ctx):
+    """The announcement of a freshly computed default fails (an observer
+    cannot follow the new object): whatever the first read does, the default
+    method has run once and every read that succeeds returns that object"""
+    from traits.api import HasTraits as _HT, Instance as _Inst
+    for mech in ("observe-missing-trait", "plain"):
+        ctx.case({"cell": "failing-first-read", "mech": mech})
+        ctx.ev()
+        ctx.tr()
+        runs = []
+
+        class Plain(_HT):
+            pass
+
+        class H(_HT):
+            child = _Inst(_HT)
+
+            def _child_default(self):
+                runs.append(1)
+                return Plain()
+        h = H()
+        if mech == "observe-missing-trait":
+            h.observe(lambda ev: None, "child.value")
+        got = []
+        for _ in range(4):
+            try:
+                got.append(h.child)
+            except Exception:
+                pass
+        if len(runs) > 1 or len({id(x) for x in got}) > 1 or not got:
+            ctx.violation(
+                "C10:failing-first-read:%s" % mech,
+                "four reads of a trait whose default announcement %s: "
+                "_child_default ran %d time(s), %d read(s) succeeded and "
+                "returned %d distinct object(s)" % (
+                    "fails" if mech != "plain" else "succeeds", len(runs),
+                    len(got), len({id(x) for x in got})),
+                history=[["cell", "failing-first-read", mech]], actor="K")
+        else:
+            ctx.outcome("dyn-default-once")
+
+
 def shards(tier):
     evs = events()
-    return [{"actor": actor, "first": i}
-            for actor in ("K", "KS") for i in range(len(evs))]
+    return [{"actor": "cells", "first": -1}] + \
+        [{"actor": actor, "first": i}
+         for actor in ("K", "KS") for i in range(len(evs))]
 
 
 def run_shard(ctx, shard, tier):
     actor = shard["actor"]
+    if actor == "cells":
+        failing_first_read_cells(ctx)
+        ctx.depth_completed = 1
+        return
     evs = events()
     sub = submenu() if tier == "quick" else evs
     depth = 3
@@ -603,6 +650,11 @@ def replay(rec):
     from mc.ctx import Ctx
     ctx = Ctx("C10", None, "quick", 0)
     c = rec.get("case") or rec
+    if c.get("cell"):
+        failing_first_read_cells(ctx)
+        for v in ctx.violations.values():
+            print("  violation:", v["sig"], v["msg"])
+        return not ctx.violations
     hist = [tuple(e) for e in c["history"]]
     run_history(ctx, c["actor"], hist)
     print("actor", c["actor"], "history", hist)
